@@ -94,15 +94,128 @@ pub async fn exec_emit(a: &Args) -> Args {
         _ => vec![0xEE, 0xEE],
     };
     let ok = app_task.await.unwrap_or_default();
+    // the other direction for the same session id: the peer opens one stream of each kind
+    // (payloads swapped) and the application reads them to the end
+    let c3 = conn.clone();
+    let reader = tokio::spawn(async move {
+        let mut res: Vec<Vec<u64>> = vec![];
+        let r1 = tokio::time::timeout(T_CALL, c3.accept_uni()).await;
+        match r1 {
+            Ok(Ok(mut r)) => {
+                let mut d = vec![];
+                let mut b = [0u8; 4096];
+                let end = loop {
+                    match tokio::time::timeout(Duration::from_millis(800), r.read(&mut b)).await {
+                        Ok(Ok(Some(k))) => d.extend(&b[..k]),
+                        Ok(Ok(None)) => break 0u64,
+                        Ok(Err(_)) => break 3,
+                        Err(_) => break 2,
+                    }
+                };
+                let mut v = vec![1, end];
+                v.extend(b2a(&d));
+                res.push(v);
+            }
+            Ok(Err(e)) => { let mut v = vec![2]; v.extend(enc_conn_err(&e).0); res.push(v); }
+            Err(_) => res.push(vec![TAG_PENDING]),
+        }
+        let r2 = tokio::time::timeout(T_CALL, c3.accept_bi()).await;
+        match r2 {
+            Ok(Ok((_s, mut r))) => {
+                let mut d = vec![];
+                let mut b = [0u8; 4096];
+                let end = loop {
+                    match tokio::time::timeout(Duration::from_millis(800), r.read(&mut b)).await {
+                        Ok(Ok(Some(k))) => d.extend(&b[..k]),
+                        Ok(Ok(None)) => break 0u64,
+                        Ok(Err(_)) => break 3,
+                        Err(_) => break 2,
+                    }
+                };
+                let mut v = vec![1, end];
+                v.extend(b2a(&d));
+                res.push(v);
+            }
+            Ok(Err(e)) => { let mut v = vec![2]; v.extend(enc_conn_err(&e).0); res.push(v); }
+            Err(_) => res.push(vec![TAG_PENDING]),
+        }
+        res
+    });
+    if let Ok(mut s) = raw.conn.open_uni().await {
+        let mut b = enc_varint(0x54);
+        b.extend(enc_varint(sid));
+        b.extend(&a2b(&a[2]));
+        let _ = s.write_all(&b).await;
+        let _ = s.finish();
+        std::mem::forget(s);
+    }
+    if let Ok((mut s, r)) = raw.conn.open_bi().await {
+        let mut b = enc_varint(0x41);
+        b.extend(enc_varint(sid));
+        b.extend(&a2b(&a[1]));
+        let _ = s.write_all(&b).await;
+        let _ = s.finish();
+        std::mem::forget(s);
+        std::mem::forget(r);
+    }
+    let got = reader.await.unwrap_or_default();
     server.close(vi(0), b"");
     ep.close(qvi(0), b"");
-    vec![vec![1, sid], ok, b2a(&control), b2a(&uni_bytes), b2a(&bi_bytes), b2a(&dg)]
+    let mut out = vec![vec![1, sid], ok, b2a(&control), b2a(&uni_bytes), b2a(&bi_bytes), b2a(&dg)];
+    out.extend(got);
+    out
 }
 
 // ------------------------------------------------------------------ 641 signals
 /// args[0] = [op, code, nbytes]
+/// op 6: finish() retried after an abandoned finish() while nothing can be acknowledged
+async fn exec_finish_retry() -> Args {
+    use std::sync::atomic::Ordering;
+    let (server, addr) = wt_server(None);
+    let rl = relay(addr).await;
+    let ep = raw_client(None);
+    let (app, raw) = tokio::join!(wt_accept(&server), raw_establish(&ep, rl.addr, "/sig"));
+    let (conn, raw) = match (app, raw) {
+        (Ok(c), Ok(r)) => (c, r),
+        _ => return vec![vec![2]],
+    };
+    let ctl = tokio::time::timeout(T_CALL, raw.conn.accept_uni()).await;
+    let enc_w = |e: &wtransport::error::StreamWriteError| -> Vec<u64> {
+        use wtransport::error::StreamWriteError as W;
+        match e { W::NotConnected => vec![3], W::Closed => vec![4], W::Stopped(c) => vec![1, c.into_inner()], W::QuicProto => vec![6] }
+    };
+    let mut s = match conn.open_uni().await { Ok(o) => match o.await { Ok(s) => s, Err(_) => return vec![vec![2]] }, Err(_) => return vec![vec![2]] };
+    let _ = s.write_all(b"hello").await;
+    let mut r = match tokio::time::timeout(T_CALL, raw.conn.accept_uni()).await { Ok(Ok(r)) => r, _ => return vec![vec![2]] };
+    // the peer has read preamble + "hello": that much is delivered and acknowledged
+    let mut first = vec![0u8; 8];
+    if tokio::time::timeout(T_CALL, r.read_exact(&mut first)).await.is_err() {
+        return vec![vec![2]];
+    }
+    tokio::time::sleep(Duration::from_millis(80)).await;
+    rl.dropping.store(true, Ordering::SeqCst);
+    let _ = tokio::time::timeout(Duration::from_millis(300), s.write_all(b"world")).await;
+    let mut fins: Vec<Vec<u64>> = vec![];
+    for (t, heal) in [(300u64, false), (400, true), (8000, false)] {
+        let r = match tokio::time::timeout(Duration::from_millis(t), s.finish()).await { Ok(Ok(())) => vec![0u64], Ok(Err(e)) => enc_w(&e), Err(_) => vec![8] };
+        fins.push(r);
+        if heal {
+            rl.dropping.store(false, Ordering::SeqCst);
+        }
+    }
+    let (f1, f2, f3) = (fins[0].clone(), fins[1].clone(), fins[2].clone());
+    let (d, end) = read_all(&mut r, Duration::from_millis(3000)).await;
+    drop(ctl);
+    server.close(vi(0), b"");
+    ep.close(qvi(0), b"");
+    vec![vec![1, (first[3..] == b"hello"[..] && d == b"world") as u64], f1, f2, f3, end]
+}
+
 pub async fn exec_signals(a: &Args) -> Args {
     let (op, code, nbytes) = (a[0][0], a[0][1], a[0][2] as usize);
+    if op == 6 {
+        return exec_finish_retry().await;
+    }
     let (server, addr) = wt_server(None);
     let ep = raw_client(None);
     let (app, raw) = tokio::join!(wt_accept(&server), raw_establish(&ep, addr, "/sig"));
@@ -362,6 +475,20 @@ pub fn oracle(f: u32, a: &Args, out: &Args) -> Option<(&'static str, String)> {
         return None;
     }
     match f {
+        631 => {
+            // C01 on the implementation alone: what the application read on the streams the peer opened
+            // for this session is exactly what the peer wrote after the preamble, then end-of-stream
+            if out.len() >= 8 {
+                for (i, src, name) in [(6usize, 2usize, "uni"), (7, 1, "bidi")] {
+                    let mut want = vec![1u64, 0];
+                    want.extend(a[src].iter());
+                    if out[i] != want {
+                        return Some(("C01", format!("session {}: the peer wrote {} bytes on a {} stream and finished it; the application got {:?}", out[0][1], a[src].len(), name, &out[i][..out[i].len().min(12)])));
+                    }
+                }
+            }
+            None
+        }
         641 => {
             let (op, code) = (a[0][0], a[0][1]);
             match op {
@@ -376,6 +503,18 @@ pub fn oracle(f: u32, a: &Args, out: &Args) -> Option<(&'static str, String)> {
                     let i = 1;
                     if out[i] != vec![1, code] {
                         return Some(("C06", format!("signal code {} arrived as {:?} (op {})", code, out[i], op)));
+                    }
+                }
+                6 => {
+                    // no packet passes the relay from before "world" is written until after the second
+                    // finish(): neither call may report success
+                    for (i, name) in [(1usize, "first"), (2, "second")] {
+                        if out[i] == vec![0] {
+                            return Some(("C06", format!("the {} finish() returned Ok while every packet was being dropped: nothing written since could have been acknowledged", name)));
+                        }
+                    }
+                    if out[3] == vec![0] && (out[0][1] != 1 || out[4] != vec![0]) {
+                        return Some(("C06", format!("finish() succeeded but the peer read equal={} then {:?}", out[0][1], out[4])));
                     }
                 }
                 5 => {
@@ -479,7 +618,9 @@ pub fn generate(rng: &mut Rng, thorough: bool, which: &str) -> Vec<Case> {
     let mut cs = vec![];
     match which {
         "emit" => {
-            for burn in [0u64, 1, 16, 20] {
+            // 1025 burnt streams put the session on stream 4100: its id no longer fits 4096, the
+            // largest frame payload the parser accepts (the two must not be confused)
+            for burn in [0u64, 1, 16, 20, 1025] {
                 let n = rng.range(0, 40) as usize;
                 cs.push(Case::new(631, vec![vec![burn], b2a(&rng.bytes(n)), b2a(b"bidi-payload"), b2a(b"dgram-payload")], "emit"));
             }
@@ -498,6 +639,7 @@ pub fn generate(rng: &mut Rng, thorough: bool, which: &str) -> Vec<Case> {
             for nb in [0usize, 1, 5000, 60000] {
                 cs.push(Case::new(641, vec![vec![5, 0, nb as u64]], "finish"));
             }
+            cs.push(Case::new(641, vec![vec![6, 0, 0]], "finish-retried-under-loss"));
         }
         "wdgram" => {
             // size contract for session ids whose quarter id sits in another varint class, peer limits
